@@ -14,3 +14,7 @@ t = singular.evaluate(L)
 (VERIF / "tables" / "singular.json").write_text(json.dumps(t, indent=0, sort_keys=True))
 n = sum(len(r) for r in t.values())
 print(f"{len(t)} entries, {n} points")
+
+t2 = singular.evaluate_special(L)
+(VERIF / "tables" / "special_args.json").write_text(json.dumps(t2, indent=0, sort_keys=True))
+print(f"special arguments: {len(t2)} entries, {sum(len(r) for r in t2.values())} argument tuples")
